@@ -10,6 +10,7 @@ from ..absint import CTX, GenList
 from ..absval import Raised, Closure
 from ..core import AnalysisError, own_nodes, norm, parents, stmt_of, dominates
 from .. import rules
+from . import C08
 
 LEVEL_TEXT = ('static analysis: (D1) region_depth_count interpreted on one read per combination of the flags duplicate / secondary / unmapped / '
               'QC-fail / supplementary x mapping quality below / at / above the cut-off (96 cells): a read is counted <=> none of the first four '
@@ -401,6 +402,8 @@ def run(chk):
     d5(chk, prog)
     d5b(chk, prog)
     d5c(chk, prog)
+    chk.clause("D6", "the bins' names reach the read-count path whole: BED readers keep the 4th tab-separated field (C08 rule)")
+    C08.d1_bed_names(chk, prog)
 
 
 MUTANTS = [
